@@ -55,6 +55,22 @@ CHECKS["C11"] = dict(
          "the empty lattice (no zero vector demanded). Exactness: integer lattice, Q = 10.",
     design="4 C11")
 
+CHECKS["C19"] = dict(
+    level="model_checking",
+    technique="TLA+ spec Codec.tla/Bits.tla (bit-level OASIS integers, deltas, reals, point lists, "
+              "GDSII real) checked by TLC; spec-emitted byte strings decoded by gdstk and "
+              "gdstk-written bytes decoded by the spec's strict decoder inside TLC",
+    text="The encodings are specified from the format definitions over arbitrary-precision bit "
+         "sequences (nothing wide ever becomes a TLC integer). TLC checks Dec(f)=v for every legal "
+         "form f of every value in the scope, emits those forms for gdstk's readers, and validates "
+         "what the readers returned; gdstk's writers are run on TLC-chosen and seeded random values "
+         "and TLC decodes the produced bytes strictly, checks that they denote exactly the value "
+         "(correctly-rounded-quotient test for ratio reals, one ulp for the GDSII real) and that "
+         "gdstk's own reader returns it.",
+    note="Trusted: TLC, Bits.tla arithmetic, my reading of SEMI P39 section 7 and of the GDSII real. "
+         "Signed magnitudes below 2^63; non-minimal forms up to 10 bytes; little-endian host only.",
+    design="4 C19")
+
 NOT_YET = {}
 
 
